@@ -122,6 +122,7 @@ func procThreadCPU(tid int) time.Duration {
 
 func runC18(c *Ctx) {
 	rep := c.Rep
+	defer runFirstOps(c) // decoders as the very first gmsm call of a fresh process
 	rep.Meta("cases: for every decoder of untrusted bytes (certificates, CSRs, CRLs, PKCS#7 incl. Verify/Decrypt on the result, BER transcoder, PKCS#8 with/without password, SM2 private/public key structures, PKIX, PEM and hex readers, PKCS#12 Decode/DecodeAll/ToPEM, SM2 ciphertext raw/ASN.1, signatures, compressed points, SM4 key PEM, 16 TLS handshake message decoders, session state, ticket decryption, whole recorded handshake flights fed to GM / TLS / auto-switch endpoints through a canned connection (incl. a scripted ECDHE-SM2 server flight), TLS key-pair loaders, CertPool PEM) a corpus of valid encodings produced by the library and derived from each: every truncation, single-byte substitutions from {00,01,7f,80,ff,b^1,b^80}, every TLV length rewritten to {0,len-1,len+1,0x80,0x84ffffffff}, universal tag swaps, structure-preserving edits of the DER tree with all enclosing lengths recomputed (leading zeros / trailing zero / 0xff lead / shortened / empty values; repeated, dropped, rotated, absent children), seeded depth-2 derivations (two edits: substitution, truncation, span deletion/duplication, splice with another valid encoding), BER nesting to depth 10^4 (definite and indefinite), empty input and random strings. Monitors: recover() per call + journal (child process), per-call thread CPU budget (2 s + 1 us/byte; a watcher converts a call that burns 20 s CPU into a verdict), serial allocation sampling (TotalAlloc delta <= 64*len + 8 MiB). Distinct non-trivial = distinct (decoder, derivation kind, corpus item).",
 		20000, []string{"Go runtime recover/rusage/MemStats"},
 		[]string{"bytes that encode a password-stretching iteration count are not mutated (the property exempts them)"})
